@@ -65,6 +65,7 @@ var riskyNames = func() []string {
 
 type docGen struct {
 	rng   *core.Rand
+	wonly bool   // only constructs of the PROVED fragment W: plain words, blocks, white space
 	risky string // "" = clean fragment only
 	sb    strings.Builder
 	depth int
@@ -150,7 +151,12 @@ func (g *docGen) heredoc() string {
 	return sb.String()
 }
 
+var wWords = []string{"a", "b", "example.com", "localhost:8080", "reverse_proxy", "/api/*", "*.example.com", "@m", "200", "it's", "x=y", "\u00e9", "\u65e5\u672c", "\ufffd", "a\U0001F600", "$", "~"}
+
 func (g *docGen) token() string {
+	if g.wonly {
+		return g.rng.Pick(wWords)
+	}
 	if g.risky != "" && g.rng.Chance(1, 6) {
 		if ts, ok := riskyTokens[g.risky]; ok {
 			return g.rng.Pick(ts)
@@ -183,7 +189,7 @@ func (g *docGen) comment() string {
 // line emits one logical line (possibly opening a nested block).
 func (g *docGen) line(budget *int) {
 	*budget--
-	if g.rng.Chance(1, 8) {
+	if !g.wonly && g.rng.Chance(1, 8) {
 		g.sb.WriteString(g.indent() + g.comment())
 		g.nl()
 		return
@@ -197,7 +203,7 @@ func (g *docGen) line(budget *int) {
 	for i := 0; i < nt; i++ {
 		if i > 0 {
 			g.sb.WriteString(g.ws())
-			if (g.rng.Chance(1, 12) || g.risky == "special-right-after-line-continuation") && !g.crlf {
+			if (g.rng.Chance(1, 12) || g.risky == "special-right-after-line-continuation") && !g.crlf && !g.wonly {
 				if g.risky == "blank-line-after-line-continuation" && g.rng.Chance(1, 2) {
 					g.sb.WriteString("\\\n" + g.rng.Pick([]string{"", " ", "\t"}) + "\n")
 				} else if g.risky == "special-right-after-line-continuation" {
@@ -207,7 +213,7 @@ func (g *docGen) line(budget *int) {
 				}
 			}
 		}
-		if i == nt-1 && (g.rng.Chance(1, 10) || g.risky == "backtick-in-heredoc" || g.risky == "empty-heredoc") && !g.crlf {
+		if i == nt-1 && (g.rng.Chance(1, 10) || g.risky == "backtick-in-heredoc" || g.risky == "empty-heredoc") && !g.crlf && !g.wonly {
 			g.sb.WriteString(g.heredoc())
 			endsMultiline = true
 		} else {
@@ -232,7 +238,7 @@ func (g *docGen) line(budget *int) {
 			}
 		}
 	}
-	if g.rng.Chance(1, 10) {
+	if !g.wonly && g.rng.Chance(1, 10) {
 		g.sb.WriteString(g.ws() + g.comment())
 	}
 	g.nl()
@@ -251,7 +257,7 @@ func (g *docGen) line(budget *int) {
 		if g.risky == "token-after-close-brace-on-same-line" && g.rng.Chance(1, 2) {
 			g.sb.WriteString(g.ws() + g.token())
 		}
-		if g.rng.Chance(1, 12) {
+		if !g.wonly && g.rng.Chance(1, 12) {
 			g.sb.WriteString(g.ws() + g.comment())
 		}
 		g.nl()
@@ -260,6 +266,9 @@ func (g *docGen) line(budget *int) {
 
 func genDoc(rng *core.Rand, risky string, maxLines int) string {
 	g := &docGen{rng: rng, risky: risky, crlf: rng.Chance(1, 12), uni: rng.Chance(1, 10)}
+	if risky == "W" {
+		g.risky, g.wonly, g.crlf = "", true, false
+	}
 	if rng.Chance(1, 6) {
 		g.sb.WriteString(rng.Pick([]string{"\n", "  ", "\n\n\t", " \n"})) // leading white space
 	}
@@ -440,8 +449,10 @@ func (*prop) Generate(rng *core.Rand, tier string, emit func(string)) {
 	enumerate(maxLen, emitS)
 	for c := 0; c < n; c++ {
 		switch x := c % 20; {
-		case x < 10:
+		case x < 8:
 			emitS(genDoc(docR, "", 1+docR.Intn(10)))
+		case x < 10:
+			emitS(genDoc(docR, "W", 1+docR.Intn(10)))
 		case x < 15:
 			emitS(genDoc(riskR, riskR.Pick(riskyNames), 1+riskR.Intn(6)))
 		case x < 17:
